@@ -281,3 +281,28 @@ func forall(lo, hi int, f func(int) bool) bool {
 //@   loop 0:
 //@     invariant fresh(s) && setInv(s)
 //@     invariant forall(func(x T) bool { return has(s.m, x) == exists(0, idx_, func(k int) bool { return vs[k] == x }) })
+
+// ---- persistent-style operations used by the level layout (C18): the receiver is never changed.
+//@ func Set.clone
+//@   property C18
+//@   requires s != nil
+//@   modifies nothing
+//@   ensures fresh(result) && same(result.m, s.m) && same(result.l, s.l)
+
+//@ func Set.Added
+//@   property C18
+//@   requires setInv(s)
+//@   modifies nothing
+//@   ensures fresh(result) && setInv(result)
+//@   ensures forall(func(x T) bool { return has(result.m, x) == (has(s.m, x) || exists(0, len(v), func(k int) bool { return v[k] == x })) })
+//@   ensures len(result.l) >= len(s.l) && forall(0, len(s.l), func(j int) bool { return result.l[j] == s.l[j] })
+
+//@ func Set.Diff
+//@   property C18
+//@   requires setInv(s) && s2 != nil
+//@   modifies nothing
+//@   ensures fresh(result) && setInv(result)
+//@   ensures forall(func(x T) bool { return has(result.m, x) == (has(s.m, x) && !has(s2.m, x)) })
+//@   loop 0:
+//@     invariant fresh(diff) && setInv(diff)
+//@     invariant forall(func(x T) bool { return has(diff.m, x) == (exists(0, idx_, func(k int) bool { return s.l[k] == x }) && !has(s2.m, x)) })
